@@ -168,19 +168,55 @@ func (w *World) bridgeBlockViaLogs(chain string, b *Block) (sync.Block, error) {
 	return sync.Block{Num: b.Num, Hash: b.Hash, Events: eb.Events}, nil
 }
 
-// sameEvents compares what the real handlers appended with the chain events as load.go states them.
+// sameEvents compares what the real handlers appended with the chain events as load.go states them, field by field over the
+// fields this package knows (a field added to the event structs later is not judged).
 func sameEvents(got, want []any) error {
 	if len(got) != len(want) {
 		return fmt.Errorf("the real log handlers appended %d events, the block holds %d bridge/claim events", len(got), len(want))
 	}
-	for i := range got {
-		gb, _ := json.Marshal(got[i])
-		xb, _ := json.Marshal(want[i])
+	norm := func(v any) (map[string]any, string) {
+		b, _ := json.Marshal(v)
 		// an absent byte string may be nil or empty
-		g, x := strings.ReplaceAll(string(gb), ":null", `:""`), strings.ReplaceAll(string(xb), ":null", `:""`)
-		if g != x {
-			return fmt.Errorf("event %d: the real log handler appended\n      %s\n   the chain event is\n      %s", i, g, x)
+		txt := strings.ReplaceAll(string(b), ":null", `:""`)
+		var m map[string]any
+		dec := json.NewDecoder(strings.NewReader(txt))
+		dec.UseNumber()
+		_ = dec.Decode(&m)
+		return m, txt
+	}
+	var differs func(path string, g, w any) string
+	differs = func(path string, g, w any) string {
+		wm, ok := w.(map[string]any)
+		if !ok {
+			gb, _ := json.Marshal(g)
+			wb, _ := json.Marshal(w)
+			if string(gb) != string(wb) {
+				return path
+			}
+			return ""
+		}
+		gm, _ := g.(map[string]any)
+		for k, wv := range wm {
+			if d := differs(path+"."+k, gm[k], wv); d != "" {
+				return d
+			}
+		}
+		return ""
+	}
+	for i := range got {
+		gm, gtxt := norm(got[i])
+		wm, wtxt := norm(want[i])
+		if d := differs("event", gm, wm); d != "" {
+			return fmt.Errorf("event %d differs at %s: the real log handler appended\n      %s\n   the chain event is\n      %s", i, d, gtxt, wtxt)
 		}
 	}
 	return nil
+}
+
+// LoadKey names a load failure: what the real log handlers appended is a finding about the bridge syncer, not about the store.
+func LoadKey(err error, storeKey string) string {
+	if err != nil && strings.Contains(err.Error(), "bridge syncer") {
+		return "bridge-syncer/appended-events-differ-from-the-chain-events"
+	}
+	return storeKey
 }
